@@ -497,8 +497,8 @@ class Tr:
             return "Nat"
         if t == "bool":
             return "Bool"
-        if t in self.decls:
-            return self.decls[t]["lean"]
+        if self.norm(t) in self.decls:
+            return self.decls[self.norm(t)]["lean"]
         m = re.match(r"^(Vec|VecDeque|Option)<(.*)>$", t)
         if m:
             inner = self.lean_ty(m.group(2))
@@ -732,8 +732,17 @@ class Tr:
             return self.bind(lines, "Rs.rem %s %s" % (atom(a), atom(b))), t
         raise Unsupported("operator `%s`" % op, pos)
 
+    def norm(self, t):
+        """`FMIndex<DBWT, DLess, DOcc>` names the struct `FMIndex` of the spec"""
+        if t is not None:
+            b = re.sub(r"<.*>$", "", t.strip())
+            if b in self.decls:
+                return b
+        return t
+
     def field(self, e, env, lines):
         c, t = self.expr(e[1], env, lines)
+        t = self.norm(t)
         if t in self.decls and self.decls[t]["kind"] == "struct":
             fs = dict(self.decls[t]["fields"])
             if e[2] not in fs:
@@ -806,6 +815,9 @@ class Tr:
             if "recv_fields" in spec:
                 for fl in spec["recv_fields"]:
                     parts.append("%s.%s" % (atom(recv), lname(fl)))
+            elif "recv_proj" in spec:                    # the receiver is a tuple (a struct of another generated file)
+                for pr in spec["recv_proj"]:
+                    parts.append("%s%s" % (atom(recv), pr))
             elif spec.get("recv", True):
                 parts.append(atom(recv))
         for a in args:
@@ -850,7 +862,7 @@ class Tr:
             raise Unsupported("closure argument of `.%s(..)`" % m, pos)
         c, t = self.expr(recv, env, lines)
         methods = self.unit.get("methods", {})
-        for key in ("%s.%s" % (t, m), ".%s" % m):
+        for key in ("%s.%s" % (self.norm(t), m), ".%s" % m):
             if key in methods:
                 return self.emit_call(methods[key], c, t, args, env, lines)
         if m in self.IDENT_METHODS and not args:
@@ -888,8 +900,9 @@ class Tr:
         self.mode_monadic = mon
         lines, code, t = self.block(b, env, None)
         ps = []
-        for a in self.unit.get("abstract", []):          # always all of them: the type of the definition is fixed by the spec
-            ps.append("(%s : %s)" % (a[0], a[1]))
+        for a in self.unit.get("abstract", []):          # fixed by the spec (not by what the body uses): `abs` of the function
+            if f.get("abs") is None or a[0] in f["abs"]:
+                ps.append("(%s : %s)" % (a[0], a[1]))
         if f.get("self_ty"):
             ps.append("(self : %s)" % self.lean_ty(f["self_ty"]))
         for n, t2 in f.get("params", []):
@@ -1078,6 +1091,8 @@ def translate_unit_px(src, unit, fail):
     txt.append("open RbV RbV.Rs")
     for o in unit.get("opens", []):
         txt.append("open " + o)
+    if unit.get("variables"):
+        txt.append("variable " + " ".join("{%s : Type}" % v for v in unit["variables"]))
     txt.append("")
     tr0 = Tr(unit, {}, decls)
     for n, d in decls.items():
@@ -1267,6 +1282,49 @@ unit(name="SrcIdxFaIter", dialect="io", props="property C12", file="src/io/fasta
                                   ("stop", "Option<u64>")],
                      params=[], ret="io::Result<IndexedReaderIterator>", outs=[], ops=["seekStart"],
                      siblings=["read_into_iter"], theorem="RbV.Thm.C12.read_iter_source_dispatch")])
+
+
+FM_FILE = "src/data_structures/fmindex.rs"
+FM_GEN = "<DBWT: Borrow<BWT>, DLess: Borrow<Less>, DOcc: Borrow<Occ>>"
+FM_IMPL = "impl" + FM_GEN + " FMIndexable for "
+
+# C06 / C05: the accessor chain below the translated FMD / FM-index algorithms.  `DBWT` / `DLess` are the vectors, `DOcc` is
+# the struct `Occ` of bwt.rs as the translated `Occ::new` (Gen/SrcOcc.lean) returns it: the pair `(occ, k)`; `.borrow()` is
+# the identity.  `Occ::get` is the translated function of Gen/SrcOcc.lean (`count` = `bytecount::count`, abstract there).
+# `SA: SuffixArray` is an opaque type `σ` with the abstract, possibly panicking `saGet` (= `SuffixArray::get`).
+unit(name="SrcFmAccess", dialect="px", props="properties C05, C06", file=FM_FILE, imports=["RbV.Gen.SrcOcc"],
+     variables=["σ"],
+     abstract=[("count", "List Nat → Nat → Nat"), ("saGet", "σ → Nat → Res (Option Nat)")],
+     decls={"Interval": dict(kind="struct", head="pub struct Interval", lean="Interval"),
+            "BiInterval": dict(kind="struct", head="pub struct BiInterval", lean="BiInterval"),
+            "FMIndex": dict(kind="struct", head="pub struct FMIndex" + FM_GEN, lean="FMIndex"),
+            "FMDIndex": dict(kind="struct", head="pub struct FMDIndex" + FM_GEN, lean="FMDIndex")},
+     types={"DBWT": "List Nat", "DLess": "List Nat", "DOcc": "(List (List Nat) × Nat)", "SA": "σ"},
+     methods={"DOcc.get": dict(lean="RbV.Gen.SrcOcc.get", abs=["count"], recv_proj=[".1", ".2"], monadic=True, ret="usize"),
+              "FMIndex.occ": dict(lean="fmOcc", abs=["count"], monadic=True, ret="usize"),
+              "FMIndex.less": dict(lean="fmLess", monadic=True, ret="usize"),
+              "SA.get": dict(lean="saGet", monadic=True, ret="Option<usize>")},
+     functions=[
+         dict(name="occ", key="FMIndex::occ", lean="fmOcc", within=FM_IMPL + "FMIndex<DBWT, DLess, DOcc>",
+              header="fn occ(&self, r: usize, a: u8) -> usize", self_ty="FMIndex", abs=["count"],
+              params=[("r", "usize"), ("a", "u8")], ret="usize", theorem="RbV.Thm.C06.fmd_accessors_source_exact"),
+         dict(name="less", key="FMIndex::less", lean="fmLess", within=FM_IMPL + "FMIndex<DBWT, DLess, DOcc>",
+              header="fn less(&self, a: u8) -> usize", self_ty="FMIndex", abs=[],
+              params=[("a", "u8")], ret="usize", theorem="RbV.Thm.C06.fmd_accessors_source_exact"),
+         dict(name="occ", key="FMDIndex::occ", lean="fmdOcc", within=FM_IMPL + "FMDIndex<DBWT, DLess, DOcc>",
+              header="fn occ(&self, r: usize, a: u8) -> usize", self_ty="FMDIndex", abs=["count"],
+              params=[("r", "usize"), ("a", "u8")], ret="usize", theorem="RbV.Thm.C06.fmd_accessors_source_exact"),
+         dict(name="less", key="FMDIndex::less", lean="fmdLess", within=FM_IMPL + "FMDIndex<DBWT, DLess, DOcc>",
+              header="fn less(&self, a: u8) -> usize", self_ty="FMDIndex", abs=[],
+              params=[("a", "u8")], ret="usize", theorem="RbV.Thm.C06.fmd_accessors_source_exact"),
+         dict(name="forward", lean="biForward", within="impl BiInterval", header="pub fn forward(&self) -> Interval",
+              self_ty="BiInterval", abs=[], params=[], ret="Interval", theorem="RbV.Thm.C06.biinterval_views_source_eq_model"),
+         dict(name="revcomp", lean="biRevcomp", within="impl BiInterval", header="pub fn revcomp(&self) -> Interval",
+              self_ty="BiInterval", abs=[], params=[], ret="Interval", theorem="RbV.Thm.C06.biinterval_views_source_eq_model"),
+         dict(name="occ", key="Interval::occ", lean="intervalOcc", within="impl Interval",
+              header="pub fn occ<SA: SuffixArray>(&self, sa: &SA) -> Vec<usize>", self_ty="Interval", abs=["saGet"],
+              params=[("sa", "SA")], ret="Vec<usize>", theorem="RbV.Thm.C05.interval_occ_source_eq_model"),
+     ])
 
 
 # ================================================================================================== self-test / main
